@@ -2,6 +2,7 @@ use crate::context::{ElementMap, TransformerContext};
 use crate::element::SvgElement;
 use crate::errors::{Result, SvgdxError};
 use crate::events::{InputEvent, InputList, OutputEvent, OutputList};
+use crate::expression::eval_attr;
 use crate::position::{BoundingBox, Position};
 use crate::transform::{process_events, EventGen};
 use crate::types::{fstr, ElRef};
@@ -39,12 +40,48 @@ impl EventGen for ReuseElement {
             .inspect_err(|_| {
                 context.pop_element();
             })?;
-        // the instance is an element like any written by hand, and gets the defaults
-        // in force where it is instantiated
-        // (an instance with content of its own is processed as a tag further down, and
-        // gets them there as `Tag::generate_events()` has it - once)
-        if instance_element.is_empty_element() {
-            context.apply_defaults(&mut instance_element);
+        // The instance is an element like any written by hand - carrying the reuse
+        // element's classes and style, and the target's id as a class - and gets the
+        // defaults in force where it is instantiated: once, here, ahead of evaluation
+        // (as `Tag::generate_events()` has it), and chosen by those classes.
+        let wants_defaults = if instance_element.is_empty_element() {
+            !matches!(instance_element.name.as_str(), "var" | "config" | "reuse")
+        } else {
+            (instance_element.is_graphics_element() && instance_element.name != "reuse")
+                || matches!(instance_element.name.as_str(), "box" | "point")
+        };
+        if wants_defaults {
+            let own_classes = instance_element.classes.clone();
+            let mut probe = instance_element.clone();
+            probe.add_classes(&reuse_element.classes);
+            let ref_class = match &elref {
+                ElRef::Id(id) => Some(id.clone()),
+                ElRef::Prev => probe
+                    .get_attr("id")
+                    .and_then(|id| eval_attr(&id, context).ok()),
+            };
+            if let Some(ref_class) = &ref_class {
+                probe.add_class(ref_class);
+            }
+            // (the reuse element's style is the instance's: see below)
+            if reuse_element.has_attr("style") {
+                probe.pop_attr("style");
+            }
+            context.apply_defaults(&mut probe);
+            // (the classes the reuse element brings have been evaluated with it)
+            let mut classes = own_classes.clone();
+            for class in probe.classes.iter() {
+                if !reuse_element.classes.contains(class) && !own_classes.contains(class) {
+                    classes.insert(class);
+                }
+            }
+            if let Some(ref_class) = ref_class {
+                if !own_classes.contains(&ref_class) {
+                    classes.remove(ref_class);
+                }
+            }
+            probe.classes = classes;
+            instance_element = probe;
         }
         // evaluate before splitting compound attributes, as for any other element:
         // an expression such as wh="$s {{$s * 2}}" contains spaces.
@@ -65,7 +102,8 @@ impl EventGen for ReuseElement {
         // Override 'default' attr values in the target
         for (attr, value) in reuse_element.get_attrs() {
             match attr.as_str() {
-                "href" | "id" | "x" | "y" => continue,
+                // (the style is carried over below)
+                "href" | "id" | "x" | "y" | "style" => continue,
                 "transform" => {
                     // append to any existing transform
                     let mut xfrm = value.clone();
@@ -101,7 +139,12 @@ impl EventGen for ReuseElement {
         instance_element.set_indent(reuse_element.indent);
         instance_element.set_src_line(reuse_element.src_line);
         if let Some(inst_style) = reuse_element.get_attr("style") {
-            instance_element.set_attr("style", &inst_style);
+            // (after the style of any defaults, as for an element's own style)
+            let style = match instance_element.get_attr("style").filter(|_| wants_defaults) {
+                Some(default_style) => format!("{default_style}; {inst_style}"),
+                None => inst_style,
+            };
+            instance_element.set_attr("style", &style);
         }
         instance_element.add_classes(&reuse_element.classes);
         if let Some(ref_id) = ref_id {
@@ -169,6 +212,8 @@ impl EventGen for ReuseElement {
             let mut new_events = InputList::new();
             let tag_name = instance_element.name.clone();
             let mut start_ev = InputEvent::from(OutputEvent::Start(instance_element));
+            // (its attributes have been evaluated above, and are not evaluated again)
+            start_ev.evaluated = true;
             start_ev.index = start;
             start_ev.alt_idx = Some(end);
             new_events.push(start_ev);
